@@ -35,6 +35,7 @@ func checkC19(c *Ctx) *core.Result {
 	if decode == nil || match == nil || black == nil || ctxFn == nil {
 		return r
 	}
+	var emptyMemo map[int]string
 	xr := &xssRoots{env: env}
 
 	// ---- D5 (part 1): the scheme literals of the URL predicate, read from the source
@@ -147,7 +148,12 @@ func checkC19(c *Ctx) *core.Result {
 			if nc, had := e.CellOf(st, ghostURL, "next"); had {
 				next = nc.(absint.IntV).L
 			}
-			e.Check(st, fr, ret.Pos(), "D5", "`not a black URL` only after every scheme was tried at "+retLabel(ret), e.ProveLE(st, absint.K(int64(len(lits))), next), fmt.Sprintf("the predicate can answer false after trying fewer than %d schemes", len(lits)))
+			tried := e.ProveLE(st, absint.K(int64(len(lits))), next)
+			if !tried && emptySubjectReturn(c, black, match, ret, &emptyMemo) {
+				e.Check(st, fr, ret.Pos(), "D5", "`not a black URL` for the empty subject at "+retLabel(ret), true, "")
+				return
+			}
+			e.Check(st, fr, ret.Pos(), "D5", "`not a black URL` only after every scheme was tried at "+retLabel(ret), tried, fmt.Sprintf("the predicate can answer false after trying fewer than %d schemes", len(lits)))
 		}
 		xr.run("pred:"+black.Name()+"/list", cfg, black, func(e *absint.Engine, st *absint.State, fr *absint.Frame) {
 			env.genericSetup(e, st, fr, black)
@@ -788,4 +794,37 @@ func trimRule(p *core.Program, r *core.Result, pred, match *ssa.Function) {
 		r.Fail("D7", qn, "matcher call located", p.Pos(pred.Pos()), "the URL predicate never calls the matcher")
 	}
 	_ = sort.Strings
+}
+
+// emptySubjectReturn: ret is reached only when the subject handed to the matcher
+// is the empty string (a dominating `len(subject) == 0` / `subject == ""` fact),
+// and E3 proves that the matcher answers false for every non-empty literal on
+// the empty subject — then answering false without trying the schemes changes nothing.
+func emptySubjectReturn(c *Ctx, black, match *ssa.Function, ret *ssa.Return, memo *map[int]string) bool {
+	for _, ci := range ssax.Calls(black) {
+		if ci.Common().StaticCallee() != match {
+			continue
+		}
+		for i, arg := range ci.Common().Args {
+			if !isStringType(arg.Type()) {
+				continue
+			}
+			for _, f := range ssax.Facts(ret.Block()) {
+				trueIsEmpty, ok := emptyTest(f.Cond, arg)
+				if !ok || f.True != trueIsEmpty {
+					continue
+				}
+				if *memo == nil {
+					*memo = map[int]string{}
+				}
+				why, done := (*memo)[i]
+				if !done {
+					why = matcherFalseOnEmptySubject(c, match, i)
+					(*memo)[i] = why
+				}
+				return why == ""
+			}
+		}
+	}
+	return false
 }
